@@ -374,6 +374,15 @@ CORPUS = [  # (description, d) hand-picked interactions; parsed into ASTs by pro
 ]
 
 
+RISKY_CORPUS = [  # (spelling, the same program in canonical spelling, feature): legal SVG 1.1 spellings
+    ('M0 0 A1,1 0 11 2,0', 'M0 0 A1,1 0 1 1 2,0', 'adjacent-arc-flags'),
+    ('M0 0 A1,1 0 0 12,0', 'M0 0 A1,1 0 0 1 2,0', 'adjacent-arc-flags'),
+    ('M0 0 a1,1 0 012,0', 'M0 0 a1,1 0 0 1 2,0', 'adjacent-arc-flags'),
+    ('M0 0 L1.e1 4', 'M0 0 L10 4', 'trailing-dot-exponent'),
+    ('M0 0 L1. 4.', 'M0 0 L1 4', 'trailing-dot'),
+]
+
+
 def prog_of_canonical(d):
     """AST of a d-string written in canonical form (letters separated by spaces
     from numbers that are separated by ' ' or ','): used for the corpus only"""
@@ -650,6 +659,41 @@ class Case:
         return '(%s, %s, %s)' % (coq_str(self.d), coq_str(''.join(t + '|' for t in self.pytoks)), e.term())
 
 
+_CASES = None
+
+
+def _terms_chunk(rng_):
+    lo, hi = rng_
+    out = []
+    for c in _CASES[lo:hi]:
+        t = c.term()
+        out.append((t, c.obs, c.key, c.pytoks))
+    return out
+
+
+def all_terms(cases):
+    """observe the implementation on every case and encode the case for Coq;
+    forked workers for large runs (the cases are fixed before; nothing random here)"""
+    global _CASES
+    if len(cases) < 4000:
+        return [c.term() for c in cases]
+    import multiprocessing as mp
+    _CASES = cases
+    chunks = [(i, min(i + 1000, len(cases))) for i in range(0, len(cases), 1000)]
+    with mp.get_context('fork').Pool(min(common.NPROC, 8)) as pool:
+        res = pool.map(_terms_chunk, chunks)
+    terms = []
+    k = 0
+    for chunk in res:
+        for t, obs, key, pytoks in chunk:
+            c = cases[k]
+            c.obs, c.key, c.pytoks = obs, key, pytoks
+            terms.append(t)
+            k += 1
+    _CASES = None
+    return terms
+
+
 def prog_json(prog):
     return [[l, [[str(v) for v in g] for g in gs]] for l, gs in prog]
 
@@ -700,6 +744,10 @@ def build_cases(rng, tier, rep):
 
     for d in CORPUS:
         add(Case(d, prog=prog_of_canonical(d), stream='corpus'))
+    for d, canon, risky in RISKY_CORPUS:
+        c0 = Case(canon, prog=prog_of_canonical(canon), stream='corpus')
+        add(c0)
+        add(Case(d, prog=prog_of_canonical(canon), stream='corpus-' + risky, risky=risky, canon_key=c0))
     # exhaustive: 'M' + up to 3 (4) further commands over the 20 letters
     maxlen = 3 if tier == 'quick' else 4
     nvar = 1
@@ -715,7 +763,7 @@ def build_cases(rng, tier, rep):
             d2, _ = render(p2, rng, style)
             add(Case(d2, prog=p2, stream='exhaustive-respelled'))
     # random programs of length 5..40
-    nrand = 600 if tier == 'quick' else 6000
+    nrand = 600 if tier == 'quick' else 4000
     for i in range(nrand):
         n = rng.randint(5, 40)
         letters = ['M' if rng.random() < 0.8 else 'm'] + [rng.choice(LETTERS) for _ in range(n - 1)]
@@ -775,7 +823,7 @@ def run(rep, tier, seed, replay=None):
             dist = {'replay': 1}
         else:
             cases, dist = build_cases(rng, tier, rep)
-        terms = [c.term() for c in cases]
+        terms = all_terms(cases)
         fails, errors = common.run_cases(tmp, '', 'casety', OKDEF, terms, shard=300,
                                          timeout=1500)
         for e in errors:
